@@ -20,10 +20,33 @@ Definition outcome_matches (o : outcome) (x : dexpect) : bool :=
   | _, _ => false
   end.
 
+Fixpoint items_match (l : list item) (x : list dexpect) : bool :=
+  match l, x with
+  | [], [] => true
+  | IOk v :: l', XOk v' :: x' => val_eqb v v' && items_match l' x'
+  | IErr e :: l', XErr c :: x' => eclass_beq (class_of e) c && items_match l' x'
+  | _, _ => false
+  end.
+
+Inductive mexpect := MXOk (vs : list val) | MXErr (c : eclass).
+
 Inductive case :=
-| CDeserDoc (fuel : N) (o : entry_opts) (t : ty) (items : list raw_item) (expect : dexpect).
+| CDeserDoc (fuel : N) (o : entry_opts) (t : ty) (items : list raw_item) (expect : dexpect)
+| CMulti (fuel : N) (o : entry_opts) (t : ty) (items : list raw_item) (expect : mexpect)
+| CIter (fuel : N) (o : entry_opts) (t : ty) (items : list raw_item) (expect : list dexpect).
 
 Definition check_case (c : case) : bool :=
   match c with
   | CDeserDoc fuel o t items e => outcome_matches (from_str_model (N.to_nat fuel) o t items) e
+  | CMulti fuel o t items e =>
+    match from_multiple_model (N.to_nat fuel) o t items, e with
+    | MOk vs, MXOk vs' => list_eqb val_eqb vs vs'
+    | MErr er, MXErr c => eclass_beq (class_of er) c
+    | _, _ => false
+    end
+  | CIter fuel o t items e =>
+    match read_model (N.to_nat fuel) o t items with
+    | inl l => items_match l e
+    | inr _ => false
+    end
   end.
